@@ -276,6 +276,10 @@ impl<SP: StorageProvider, PS: PolicyStore> Transaction<SP, PS> {
         parent: Address,
         buffer: &mut TraversalBuffer,
     ) -> Result<(), ClientError> {
+        // `get_perspective` opens a new perspective (taking `parent` out of the
+        // transaction heads) unless `parent` is the head of the current one.
+        let fresh = self.phead != Some(parent.id);
+        let parent_tip = self.heads.get(&parent.id).copied();
         let perspective = self.get_perspective(parent, storage, buffer)?;
 
         let policy_id = perspective.policy();
@@ -292,6 +296,16 @@ impl<SP: StorageProvider, PS: PolicyStore> Transaction<SP, PS> {
         ) {
             perspective.revert(checkpoint)?;
             sink.rollback();
+            if fresh {
+                // The perspective was opened only for the rejected command: drop
+                // it (an empty perspective cannot be written) and keep its parent
+                // as a head of the transaction.
+                self.perspective = None;
+                self.phead = None;
+                if let Some(loc) = parent_tip {
+                    self.heads.insert(parent.id, loc);
+                }
+            }
             return Err(e.into());
         }
         perspective.add_command(command)?;
